@@ -111,11 +111,11 @@ func TestC10(t *testing.T) {
 		if c.Payload < 0 {
 			c.Payload = 0
 		}
-		if c.Direction == "request" && (c.Sc.Client.Form == FormConnectGet || (c.Sc.Client.Form == FormREST && !strings.Contains(c.Sc.Client.Method, "Put"))) && c.Payload > 600<<10 {
+		if c.Direction == "request" && (c.Sc.Client.Form == FormConnectGet || (c.Sc.Client.Form == FormREST && !strings.Contains(c.Sc.Client.Method, "Put"))) && c.Payload > 512<<10 {
 			// a message that travels in the URL cannot be larger than what an HTTP server lets through
 			// (net/http: 1 MiB of request line and headers by default); the URL is in memory before the
 			// transcoder sees the request
-			c.Payload = 600 << 10
+			c.Payload = 512 << 10 // (8 L for the largest limit drawn)
 		}
 		mi := lookupMethod(benchService, c.Sc.Client.Method)
 		seed := uint64(rapid.IntRange(1, 1<<30).Draw(t, "blob_seed"))
@@ -345,6 +345,12 @@ func checkC10(c *sizeCase) *CheckResult {
 	// A2: everything fits => no size rejection
 	if exhausted {
 		margin := 16
+		if sc.Client.Form == FormREST || (view != nil && view.Protocol == ProtoREST) {
+			// what a REST leg re-encodes to depends on which sub-messages the binding makes present
+			// (an empty body field becomes a present, fully spelled-out sub-message in JSON): the sizes
+			// computed here are a lower bound only, so "fits" is asserted with half the limit to spare
+			margin = L / 2
+		}
 		fits := true
 		sizes := []int{reqWire, reqPlain}
 		if c.EndFrame {
